@@ -17,7 +17,7 @@ import (
 // runC20Blackhole: Shutdown while a probe of a black-holed member (datagrams vanish, TCP SYNs are never
 // answered) is in its TCP-fallback phase. One awareness-scaled probe interval after Shutdown returned
 // no goroutine of the probe (probeNode, its fallback dial) may be left.
-func runC20Blackhole(run *Run, seed int64, health int) (out []*c01Result) {
+func runC20Blackhole(run *Run, seed int64, health int, hung bool) (out []*c01Result) {
 	fail := func(key, f string, a ...any) {
 		out = append(out, &c01Result{"C20/" + key, fmt.Sprintf(f, a...)})
 	}
@@ -43,7 +43,12 @@ func runC20Blackhole(run *Run, seed int64, health int) (out []*c01Result) {
 		B.Send(Enc(TSuspect, &WSuspect{Incarnation: uint32(1000 * (i + 1)), Node: "V", From: "B"}))
 		Settle(time.Millisecond)
 	}
-	B.EP.Crash() // from now on: datagrams vanish, SYNs are never answered
+	if hung {
+		B.Stop()    // nobody reads its datagrams any more ...
+		B.EP.Hang() // ... and its listener still completes TCP handshakes but never answers (a wedged process)
+	} else {
+		B.EP.Crash() // from now on: datagrams vanish, SYNs are never answered
+	}
 	// wait until the probe has given up on UDP and is dialling
 	dialling := false
 	for i := 0; i < 4000 && !dialling; i++ {
@@ -63,7 +68,7 @@ func runC20Blackhole(run *Run, seed int64, health int) (out []*c01Result) {
 		fail("shutdown-error", "%v", err)
 	}
 	V.Stopped = true
-	run.Cell("blackhole", fmt.Sprintf("health=%d", hs))
+	run.Cell("blackhole", fmt.Sprintf("health=%d", hs), fmt.Sprintf("hung=%v", hung))
 	interval := time.Duration(hs+1) * V.Conf.ProbeInterval
 	Settle(interval + 50*time.Millisecond)
 	for _, g := range MemberlistGoroutines() {
